@@ -31,19 +31,31 @@ def suite(copy, bdir):
 
 
 def demo(seed, copy, bdir, work):
+    # work on a private copy of the demonstration in which the agent's worktree path is replaced by the scratch copy
+    wdir = os.path.join(work, "demo_run")
+    shutil.rmtree(wdir, ignore_errors=True)
+    shutil.copytree(seed, wdir, symlinks=True)
+    for f in os.listdir(wdir):
+        fp = os.path.join(wdir, f)
+        if os.path.isfile(fp) and not os.path.islink(fp) and f.split(".")[-1] in ("c", "cpp", "sh", "java", "py"):
+            t = open(fp, errors="replace").read()
+            t2 = re.sub(r"/tmp/wt_C\d\d", copy, t)
+            if t2 != t:
+                open(fp, "w").write(t2)
+    seed = wdir
     src = os.path.join(seed, "demo.c")
     shd = os.path.join(seed, "demo.sh")
     exe = os.path.join(work, "demo")
-    if os.path.exists(src):
-        rc, out = sh(["gcc", "-I%s/include" % copy, "-I" + bdir, src, "-o", exe, "-L%s/src" % bdir, "-lxrl", "-lm", "-lpthread",
-                      "-Wl,-rpath,%s/src" % bdir])
+    if os.path.exists(src) and not os.path.exists(shd):
+        rc, out = sh(["gcc", "-I%s/include" % copy, "-I" + bdir, src, "-o", exe, "-L%s/src" % bdir, "-lxrl", "-lm", "-lpthread", "-ldl",
+                      "-Wl,-rpath,%s/src" % bdir], cwd=bdir)
         if rc:
             return None, "demo compile failed: " + out[-1500:]
     if os.path.exists(shd):
         env = dict(os.environ, WT=copy, BUILD=bdir, DEMO=exe)
-        rc, out = sh(["sh", shd], cwd=seed, env=env, timeout=600)
+        rc, out = sh(["sh", os.path.join(wdir, "demo.sh"), copy, os.path.basename(bdir)], cwd=wdir, env=env, timeout=900)
     else:
-        rc, out = sh([exe], cwd=work, timeout=600)
+        rc, out = sh([exe], cwd=bdir, timeout=600)
     return rc, out[-1500:]
 
 
@@ -61,7 +73,7 @@ def main():
     try:
         copy = os.path.join(work, "src")
         sh(["rsync", "-a", "--exclude", "/_build", "--exclude", "/.git", REPO + "/", copy + "/"])
-        bdir = os.path.join(work, "b")
+        bdir = os.path.join(copy, "_b")
         if os.path.exists(os.path.join(seed, "NEEDS_KISSEL")):
             # the change only manifests with the Kissel table present: regenerate it in the scratch copy (configuration B)
             sh([sys.executable.replace("python3", "python3") if False else "python3-vt", os.path.join(VERIF, "tools", "regen_kissel.py"), copy,
